@@ -77,7 +77,7 @@ Definition str_false : list byte := [x66; x61; x6c; x73; x65].
 (** val/conv.go toBool on a string *)
 Definition conv_bool (s : list byte) : option bool :=
   if bytes_eqb s [x31] || bytes_eqb s str_true || bytes_eqb s [x79; x65; x73] then Some true
-  else if bytes_eqb s [x30] || bytes_eqb s str_false || bytes_eqb s [x6e; x70] then Some false
+  else if bytes_eqb s [x30] || bytes_eqb s str_false || bytes_eqb s [x6e; x6f] then Some false
   else None.
 
 Fixpoint enum_by_id (labels : list (ident * Z)) (id : Z) : option (ident * Z) :=
